@@ -641,6 +641,77 @@ def sec_wrappers(ck):
             ck.prove(f"wrap.{wname}.obs_passthrough", [], eq_arr(o1[t1.out_names[0]], o2[t2.out_names[0]]), replay=lambda res: (True, {"note": "terms differ"}))
 
 
+# ------------------------------------------------------------------------------------------------ no Python-side state across constructions
+def construction_independence(ck, label, cls, max_variants=8):
+    """`none of these depends on Python-side state`: an environment built with default arguments is the same object (every array leaf and static field)
+    whether or not other instances with non-default options (floats halved, tuples scaled, dictionary options overriding known keys) were built before it"""
+    import inspect
+    import equinox as eqx
+    e1 = cls()
+    variants = []
+    for n, p_ in inspect.signature(cls.__init__).parameters.items():
+        d = p_.default
+        if isinstance(d, bool) or n == "self":
+            continue
+        if isinstance(d, float):
+            variants.append({n: d * 0.5 if d else 0.25})
+        elif isinstance(d, tuple) and d and all(isinstance(x, (int, float)) and not isinstance(x, bool) for x in d):
+            variants.append({n: tuple(x * 0.5 for x in d)})
+        elif d is None and "dict" in str(p_.annotation):
+            stem = n.split("_")[0] + "_"                     # reward_weights -> attributes reward_<key>, noise_scales -> noise_<key>
+            keys = [a[len(stem):] for a in vars(e1) if a.startswith(stem) and a != n]
+            for k in keys[:3]:
+                variants.append({n: {k: 7.5}})
+    built, failed = [], []
+    for kw in variants[:max_variants] + [v for v in variants[max_variants:] if isinstance(next(iter(v.values())), dict)]:
+        try:
+            cls(**kw)
+            built.append(next(iter(kw)))
+        except Exception as ex:  # noqa: BLE001  (an invalid combination is not this obligation's business)
+            failed.append(f"{next(iter(kw))}: {type(ex).__name__}")
+    e2 = cls()
+    import dataclasses
+    diff = []
+
+    def cmp(a, b, path, depth=0):
+        """array leaves bit-equal; plain Python values equal; dataclass / container fields recursively; opaque host objects (MjModel, callables) are not compared"""
+        if depth > 6:
+            return
+        if hasattr(a, "shape") and hasattr(a, "dtype"):
+            if jax.dtypes.issubdtype(a.dtype, jax.dtypes.prng_key):
+                a, b = jax.random.key_data(a), jax.random.key_data(b)
+            if np.shape(a) != np.shape(b) or not np.array_equal(np.asarray(a), np.asarray(b), equal_nan=True):
+                diff.append(path)
+        elif isinstance(a, (bool, int, float, str, type(None), bytes)):
+            if not (a == b or (isinstance(a, float) and a != a and b != b)):
+                diff.append(path)
+        elif isinstance(a, (tuple, list)):
+            if not isinstance(b, (tuple, list)) or len(a) != len(b):
+                diff.append(path)
+            else:
+                for i, (x, y) in enumerate(zip(a, b)):
+                    cmp(x, y, f"{path}[{i}]", depth + 1)
+        elif isinstance(a, dict):
+            if not isinstance(b, dict) or list(a) != list(b):
+                diff.append(path)
+            else:
+                for k in a:
+                    cmp(a[k], b[k], f"{path}[{k!r}]", depth + 1)
+        elif dataclasses.is_dataclass(a) and not isinstance(a, type):
+            if type(a) is not type(b):
+                diff.append(path)
+            else:
+                for f_ in dataclasses.fields(a):
+                    try:
+                        cmp(getattr(a, f_.name), getattr(b, f_.name), f"{path}.{f_.name}", depth + 1)
+                    except AttributeError:
+                        pass
+    cmp(e1, e2, type(e1).__name__)
+    same = not diff
+    ck.fact(f"types.{label}.default_construction_independent_of_earlier_instances", same,
+            f"default instance before vs after building {len(built)} non-default instances ({sorted(set(built))[:12]}); leaves that differ: {diff[:8]}; skipped: {failed[:4]}")
+
+
 # ------------------------------------------------------------------------------------------------ types / purity
 MUJOCO = ["Ant", "HalfCheetah", "Hopper", "Humanoid", "HumanoidStandup", "InvertedDoublePendulum", "InvertedPendulum", "Pusher", "Reacher", "Swimmer", "Walker2d"]
 G1 = ["G1Locomotion", "G1Standing", "G1Standup"]
@@ -752,6 +823,13 @@ def main():
         for n in CLASSIC_CLS:
             with ck.section(f"types.{snake(n)}"):
                 type_facts(ck, snake(n), inspect_env(getattr(CC, n)(), heavy=True))
+                construction_independence(ck, snake(n), getattr(CC, n))
+        for n in G1:
+            with ck.section(f"types.{snake(n)}.construction"):
+                construction_independence(ck, snake(n), getattr(G1M, n))
+        for n in (MUJOCO if heavy else ["Hopper", "Ant"]):
+            with ck.section(f"types.{snake(n)}.construction"):
+                construction_independence(ck, snake(n), getattr(MJ, n))
         for n in MUJOCO:
             with ck.section(f"types.{snake(n)}"):
                 env = getattr(MJ, n)()
